@@ -60,6 +60,11 @@ def own_error_forms():
     out += ["(progn (defun rp (a b a) b) (rp 1 2 3))", "(funcall (lambda (a &optional a) a) 1)", "(funcall (lambda (a &optional a) a) 1 2)", "(funcall (lambda (b &rest b) b) 1 2 3)",
             "(progn (defmacro rpm (c c) (list 'quote c)) (rpm 1 2))", "(progn (defun rp (a a) (car 5)) (rp 1 2))", "(mapcar (lambda (a a)) '(1))", "(progn (defun rp (a b a b) (list a b)) (rp 1 2 3 4) (rp 5 6 7 8))",
             "(let ((a 'outer)) (funcall (lambda (a a a) a) 1 2 3) a)"]
+    out += ["(progn (let ((a 5)) (eval (list 'defun 'a nil 42))) (list (a) (boundp 'a)))", "(progn (let ((b 5)) (eval (list 'defmacro 'b nil 43)) b) (b))",
+            "(progn (defmacro mkfn (nm) (list 'defun nm nil ''made)) (let ((c 1)) (mkfn c) c) (c))", "(progn (defun inst (a) (eval (list 'defun 'a nil a)) (car 5)) (inst 7))",
+            "(progn (dolist (a '(1 2)) (eval (list 'defun 'a nil a))) (a))", "(progn (dotimes (b 2) (eval (list 'defun 'b '(x) 'x))) (b 9))",
+            "(progn (funcall (lambda (c) (eval (list 'defmacro 'c '(x) 'x))) 3) (c 4))", "(progn (let* ((a 1) (b 2)) (eval (list 'defun 'a nil 'b)) (eval (list 'defun 'b nil ''bb)) (list a b)) (list (a) (b)))",
+            "(let ((a 1)) (let ((a 2)) (eval (list 'defun 'a nil 3))) a)"]
     out += ["(dotimes (a) 1)", "(dotimes a 1)", "(dotimes (a 2 3 4) 1)", "(dotimes (a 2 . 3) 1)", "(dotimes (a . 2) 1)", "(dotimes)",
             "(dolist (a) 1)", "(dolist a 1)", "(dolist (a '(1) 3 4) 1)", "(dolist (a '(1) . 3) 1)", "(dolist (a . 2) 1)", "(dolist)",
             "(dotimes (a 2) . 5)", "(dolist (a '(1 2)) . 5)", "(let ((a 1)) . 5)", "(let* ((a 1)) . 5)", "(let ((a 1) . 5) 1)",
